@@ -74,6 +74,11 @@ inline slices_t slices_of(const Op& op) {
     return r;
 }
 
+template <typename X> constexpr bool static_rank_below2() {
+    constexpr auto d = meta::fixed_dim_v<X>;
+    if constexpr (meta::is_fail_v<decltype(d)>) return false; else return d < 2;
+}
+
 // apply one operation to `x` lazily or eagerly and hand the result (view / maybe<view> / ndarray / maybe<ndarray>) to `k`
 template <int W, int D, typename X, typename P, typename K>
 std::string apply_op(const X& x, const Op& op, const P& p, bool eager, K k) {
@@ -116,7 +121,8 @@ std::string apply_op(const X& x, const Op& op, const P& p, bool eager, K k) {
     // 3-argument form: the 2-argument view::cumsum calls `cumsum(a, axis, None)` unqualified, which is ambiguous with
     // array::cumsum through ADL once array/cumsum.hpp is included
     C10_CASE(CUMSUM,      int ax = op.i(0); C10_BOTH(cumsum, x, ax, nm::None))
-    C10_CASE(MATMUL,      C10_BOTH(matmul, x, p.b))
+    // (a left operand whose rank is statically 1 does not instantiate: shape_matmul recurses over dim-2 axes)
+    C10_CASE(MATMUL,      if constexpr (static_rank_below2<X>()) return "unsupported-static-rank"; else { C10_BOTH(matmul, x, p.b) })
 #ifndef C10_WITH_STACK
     C10_CASE(CONCATENATE, int ax = op.i(0); C10_BOTH(concatenate, x, p.b, ax))
 #else
